@@ -1,4 +1,5 @@
 (* drv_bufs.ml -- line-protocol driver of the extracted buffer-table model (C20).
+   (a command token LN/tok/tok/... is one `|`-joined command line, run by ex_line)
    request:  H nfiles (name lines)* nargs name* ncmds cmd*      (names/lines hex, lines comma separated)
    answer:   per command the canonical events joined by '|' ('.' = none), commands separated by ' ',
              then ';' and the final file system as name=lines *)
@@ -7,7 +8,13 @@ let lines_of w = if w = "-" then [] else List.map bytes_of_hex (split ',' w)
 let addr w = if w = "-" then None else Some (z_of_int (int_of_string w))
 let b01 w = w = "1"
 
-let parse_cmd tok =
+let rec parse_cmd tok =
+  if String.length tok > 3 && String.sub tok 0 3 = "LN/" then
+    (* a command line c1|c2|...: the sub-tokens are separated by '/' *)
+    let subs = List.map parse_cmd (split '/' (String.sub tok 3 (String.length tok - 3))) in
+    if List.for_all (function `C _ | `P _ -> true | _ -> false) subs
+    then `L (List.map (function `C c | `P c -> c | _ -> assert false) subs) else `Bad
+  else
   match split ':' tok with
   | ["E"; bang; ew; pt; p] ->
       let a = (match pt with "lit" -> PLit (bytes_of_hex p) | "alt" -> PAlt | "cur" -> PCur | _ -> PNone) in
@@ -61,6 +68,9 @@ let do_hist ws =
       else match parse_cmd tok with
         | `C c -> let (s1, evs) = c_command !s c in s := s1; List.concat_map (show_ev false) evs
         | `P c -> let (s1, evs) = c_command !s c in s := s1; List.concat_map (show_ev true) evs
+        | `L cs -> let (s1, evs) = c_line !s cs in s := s1;
+                   (* a line is observed only through "some file was read" *)
+                   if List.exists (function EvRead -> true | _ -> false) evs then ["R"] else []
         | `Alive -> ["A"]
         | `Bad -> ["?"] in
     if k > 1 then Buffer.add_char out ' ';
